@@ -56,22 +56,22 @@ def malformed_stream(rng):
     out += [(g, True) for g in GM]
     SP = [b"h / 0\r\n", b"h /x%0D%0A2 text/plain%0D%0A 0\r\n", b"h /a.txt 5\r\nab", b"h /a.txt 99999999999999999999\r\n", b"h /a.txt 0007\r\nabcdefgh",
           b"h  / 0\r\n", b"h /%zz 0\r\n", b"h /%00 0\r\n", b"h /mail.mbox%7C/MBOX-MESSAGE/9999 0\r\n", b"h /nonexistent 3\r\nabc", b"h /empty.txt 0\r\n",
-          b"h /emptydir 0\r\n", b"h a.txt 0\r\n", b"h /a.txt 0", b"h /x%0Ay 0\r\n"]
+          b"h /emptydir 0\r\n", b"h a.txt 0\r\n", b"h /a.txt 0", b"h /x%0Ay 0\r\n",
+          "h / \u00b2\r\n".encode(), "h /a.txt \u2460\r\n".encode(), "h /a.txt \u0663\r\n".encode(), "h /a.txt 1\u00b2\r\n".encode(),
+          "h\u00e9 /a.txt 0\r\n".encode(), b"h /a.txt +1\r\n", b"h /a.txt 1_0\r\n", b"h /a.txt 0x10\r\n", b"h /a.txt  1\r\n"]
     out += [(s, False) for s in SP]
     return out
 
 
 def expected_kind(tree_index, sel):
     """What the site should answer for a plain selector, from the tree alone (None = no precise expectation)."""
-    if any(c in sel for c in ("|", "?", "\x00")) or "URL:" in sel or sel.startswith("/1/"):
-        return None
     s = sel.rstrip("/") if sel != "/" else ""
-    ent = tree_index.get(s)
     if s == "":
         return "dir"
-    if ent is None:
-        return None
-    return ent
+    ent = tree_index.get(s)
+    if ent is not None:
+        return ent
+    return None
 
 
 def run(tier):
@@ -99,7 +99,7 @@ def run(tier):
     # ---- worlds: every request alone (two handler lists), and after histories ----
     singles = [{"data": gen.lat(d), "tls": t} for d, t, _ in reqs]
     jobs = [{"op": "world", "tree": tree, "config": cfg, "requests": singles} for cfg in (trees.SITE_CONFIG, dict(trees.SITE_CONFIG, **FULL_CONFIG))]
-    nhist = 200 if tier == "quick" else 1500
+    nhist = 260 if tier == "quick" else 1500
     benign = [i for i, r in enumerate(reqs) if r[2] == "benign"]
     hist_jobs = []
     def find_req(data):
@@ -109,7 +109,13 @@ def run(tier):
         reqs.append((data, False, "benign"))
         singles.append({"data": gen.lat(data), "tls": False})
         return len(reqs) - 1
-    corpus = [([find_req(b"/md/new\r\n")], find_req(b"/md\r\n")),
+    corpus = []
+    # a listing served from the directory cache must equal the one generated afresh, in every form
+    for d in (b"/", b"/dir1", b"/odd", b"/umn", b"/maps", b"/dir1/sub"):
+        for first in (d + b"\r\n", b"GET " + d + b" HTTP/1.0\r\n\r\n", d + b"\t$\r\n"):
+            for target in (d + b"\t$\r\n", d + b"\t+\r\n", d + b"\r\n", b"GET " + d + b" HTTP/1.0\r\n\r\n", d + b"\t!\r\n"):
+                corpus.append(([find_req(first)], find_req(target)))
+    corpus += [([find_req(b"/md/new\r\n")], find_req(b"/md\r\n")),
               ([find_req(b"/dir1\r\n")], find_req(b"/dir1/.cache.pygopherd.dir\r\n")),
               ([find_req(b"/md\r\n"), find_req(b"/mail.mbox\r\n")], find_req(b"/mail.mbox|/MBOX-MESSAGE/2\r\n"))]
     for n_h in range(nhist):
